@@ -5,7 +5,8 @@ CONSTANTS
   Focus = {"file"}
   Emit = "edge"
   MaxBatch = 2
+  AsWritten = FALSE
 VIEW View
-INVARIANTS UniqueKeys AuthIndexAgreement RestoreFidelityWhenClean RestoreShrinks RBACParentsExist BatchAllOrNothing
+INVARIANTS UniqueKeys IndexAgreement RestoreFidelity RestoreShrinks RBACParentsExist BatchAllOrNothing
 ACTION_CONSTRAINT EmitEdge
 CHECK_DEADLOCK FALSE
